@@ -1,7 +1,7 @@
 #!/usr/bin/env python3
-"""Seeded-change self test for C13 / C17: applies ONE edit at a time to a scratch worktree of /repo, confirms that the
+"""Seeded-change self test for C13 / C17 / the C14<->C13 content link: applies ONE edit at a time to a scratch worktree of /repo, confirms that the
 repository still compiles, runs `VERIF_REPO=<scratch> ./check <prop>`, records what the check reported, restores the
-scratch tree. Nothing is applied to /repo.   usage: selftest_typed.py C13|C17 [ids…]   → markdown rows on stdout"""
+scratch tree. Nothing is applied to /repo.   usage: selftest_typed.py C13|C17|C14 [ids…]   → markdown rows on stdout"""
 import json, os, re, subprocess, sys, zipfile, shutil
 
 ROOT = os.path.dirname(os.path.dirname(os.path.abspath(__file__)))
@@ -74,6 +74,21 @@ MUT = {
          sub(REC, 'proto.Uint32(uint32(m.Timestamp.Sub(datetime.Epoch()).Seconds()))', 'proto.Uint32(uint32(m.Timestamp.Sub(datetime.Epoch()).Seconds()) + 1)')),
         ('T13', 'a slice field treated as invalid when empty (record.Speed1S `len != 0`)', sub(REC, 'if m.Speed1S != nil {', 'if len(m.Speed1S) != 0 {')),
         ('T14', 'shared template bug seeded in ONE other file: lap.TotalElapsedTime sentinel', sub('profile/mesgdef/lap_gen.go', 'if m.TotalElapsedTime != basetype.Uint32Invalid {', 'if m.TotalElapsedTime != 0 {')),
+    ],
+    'C14': [
+        ('L1', 'activity.ToFIT converts the records with default options instead of the given ones (`f.Records[i].ToMesg(nil)`)',
+         sub('profile/filedef/activity.go', 'f.Records[i].ToMesg(options)', 'f.Records[i].ToMesg(nil)')),
+        ('L2', 'activity.Add drops the developer fields of unrelated messages (`mesg.DeveloperFields = nil` in the default branch)',
+         sub('profile/filedef/activity.go', '\t\tmesg.Fields = sliceutil.Clone(mesg.Fields)\n', '\t\tmesg.Fields = sliceutil.Clone(mesg.Fields)\n\t\tmesg.DeveloperFields = nil\n')),
+        ('L3', 'course.Add keeps the caller\'s Fields slice of an unrelated message (no clone)',
+         sub('profile/filedef/course.go', 'mesg.Fields = sliceutil.Clone(mesg.Fields)', '_ = sliceutil.Clone(mesg.Fields)')),
+        ('L4', 'index slip in activity.ToFIT: every lap is emitted as the first one (`f.Laps[0].ToMesg(options)`)',
+         sub('profile/filedef/activity.go', 'for i := range f.Laps {\n\t\tfit.Messages = append(fit.Messages, f.Laps[i].ToMesg(options))', 'for range f.Laps {\n\t\tfit.Messages = append(fit.Messages, f.Laps[0].ToMesg(options))')),
+        ('L5', 'settings.ToFIT strips the unknown fields of user_profile messages',
+         sub('profile/filedef/settings.go', 'fit.Messages = append(fit.Messages, f.UserProfiles[i].ToMesg(options))',
+             'um := f.UserProfiles[i].ToMesg(options)\n\t\tfor k := range um.Fields {\n\t\t\tif um.Fields[k].Name == "unknown" {\n\t\t\t\tum.Fields = um.Fields[:k]\n\t\t\t\tbreak\n\t\t\t}\n\t\t}\n\t\tfit.Messages = append(fit.Messages, um)')),
+        ('L6', 'weight.Add stores weight_scale messages unconverted as unrelated ones (case removed: no normalisation, emitted last)',
+         sub('profile/filedef/weight.go', '\tcase mesgnum.WeightScale:\n\t\tf.WeightScales = append(f.WeightScales, mesgdef.NewWeightScale(&mesg))\n', '')),
     ],
     'C17': [
         ('G1', 'DESIGN §6: one scale edited in factory_gen.go (user_profile.height 100 → 10)',
